@@ -14,9 +14,9 @@ missed = [r[0] for r in rows if r[2] != 'yes']
 harm = json.load(open('/verif/harmless/results.json')) if os.path.exists('/verif/harmless/results.json') else {}
 hn = len(harm); hclean = sum(1 for v in harm.values() if not v)
 out = '''## Appendix C — seeded changes and which checks catch them
-Three rounds of independent sub-agents, each given only the text of one property
+Four rounds of independent sub-agents, each given only the text of one property
 and a scratch worktree (second round: with the contract files removed from the
-worktree; first and third: as the repository is), produced %d changes that
+worktree; the others: as the repository is), produced %d changes that
 compile, pass the whole pinned suite and break the property only for specific
 inputs, limits, sequences or interleavings. Every one was confirmed by me on a
 scratch worktree (`tools/verify_seed.py`: suite passes with the change,
@@ -49,7 +49,11 @@ detectors on the initialiser (C19-b/c/d/f); XML label model (C12-b/d);
 `frame.input` and `lock*` claimed in new code (C04-b, C06-f); map-iteration scan
 (C04-f); spec-level first match in the C10 ghosts (C10-f); `consumeConst`
 inspected-byte count (C09-e); a time budget per function (C19-e made the engine
-run for 20 minutes).
+run for 20 minutes); `#frame[k]` claimed wherever the store sits and attributed
+to the properties whose modular proofs rest on the callee's frame (C10-d);
+pool obligations under C01 (C01-h); `consumeString` inspected-byte count and the
+exact truncated-mode decision over `insp(raw)` (C09-h, C08-h); DetectReader asks
+for exactly `limit` bytes (C08-g); the csv.Reader configuration scan (C13-h).
 
 | seed | property | own check reports it | first obligation reported | change (first sentence of its author's description) |
 |---|---|---|---|---|
